@@ -768,6 +768,10 @@ def run_phistory(impl, r, n, kind, fixed=None):
                                                             for (i, t, h, o) in glog if live_now(t))) or '-')
         backed = set((i, t, h) for (i, t, h, o) in glog)
         # ---- the property on the implementation
+        so = semantic_overlap(impl)
+        if so is not None:
+            fail('command %d %r: accounts %d and %d now own the masks %s and %s, which have a hostmask in common' % ((len(cmds) - 1, c) + (so[0], so[2], so[1], so[3])))
+            tags.add('overlapping-masks')
         seen_names = {}
         for i, u in impl.U.users.items():
             if not u.name: continue
